@@ -29,7 +29,7 @@ def run(ctx):
                 "(branch, offset class), substitution (position class, character class) x outcome")
     ctx.assumptions = ["child public keys come from HDPublicKey.child (C08); sha256 / hash256 rows certified with hashlib"]
     if ctx.want("mc"):
-        r = ctx.mc_expect_ok("descriptor/MC_DescChecksum.tla", "MC_DescChecksum.cfg", what="descriptor checksum error detection", env={"MAXLEN": 200 if q else 560}, workers=2, timeout=3000)
+        r = ctx.mc_expect_ok("descriptor/MC_DescChecksum.tla", "MC_DescChecksum.cfg", what="descriptor checksum error detection", env={"MAXLEN": 200 if q else 560}, workers=2, timeout=7200)
         ctx.exhaustive.append("MC_DescChecksum: all single and paired (gap <= 3) symbol errors over %d symbols x 31 x 31 value differences" % (200 if q else 560))
     if not ctx.want("cases"):
         return
@@ -118,7 +118,7 @@ def run(ctx):
     byid = {c["id"]: c for c in cases}
     ctx.sample({k: v for k, v in cases[0].items() if k in ("id", "kind", "m", "res")})
     ctx.sample({"descriptor": "".join(chr(x) for x in cases[0]["text"])})
-    bad = ctx.validate("descriptor/C16Cases.tla", [{k: v for k, v in c.items() if k != "region"} for c in cases], "C16Cases.cfg", timeout=3000, per_shard_min=40)
+    bad = ctx.validate("descriptor/C16Cases.tla", [{k: v for k, v in c.items() if k != "region"} for c in cases], "C16Cases.cfg", timeout=7200, per_shard_min=40)
     for cid, why in bad.items():
         c = byid[cid]
         ctx.violation("%s:%s:%s" % (c["kind"], why, c.get("region", "")), "%s case %s: %s %s" % (c["kind"], cid, why, "".join(chr(x) for x in c["text"])[:160] if c["kind"] == "sub" else ""),
